@@ -34,7 +34,7 @@ func init() {
 }
 
 func c12Run(ctx *core.Ctx) {
-	ctx.Rule = "the complete configuration space: 5 extension flags x MaxMessageBytes {0, 1000} x MaxRecipients {0, 2} x TLS {none, available, active (implicit TLS), active with Server.TLSConfig unset (TLS listener handed to Serve)} x AllowInsecureAuth x backend {auth-capable, not} x {SMTP, LMTP} = 3072 configurations of the statement plus 1024 for the fourth TLS state; for each: EHLO/LHLO capability set compared (order-free, exact arguments) with a reference function written from the statement, HELO must list none, then one probe per extension (parameter accepted iff enabled, 504 iff disabled), STARTTLS, AUTH, SIZE=n+1, RCPTMAX and BDAT probes; after a successful STARTTLS the capability set is checked again for the TLS state. Non-trivial: every configuration; distinct by configuration."
+	ctx.Rule = "the complete configuration space: 5 extension flags x MaxMessageBytes {0, 1000} x MaxRecipients {0, 2} x TLS {none, available, active (implicit TLS), active with Server.TLSConfig unset (TLS listener handed to Serve)} x AllowInsecureAuth x backend {auth-capable, not} x {SMTP, LMTP} = 3072 configurations of the statement plus 1024 for the fourth TLS state; for each: EHLO/LHLO capability set compared (order-free, exact arguments) with a reference function written from the statement, HELO must list none, then one probe per extension (parameter accepted iff enabled, 504 iff disabled), STARTTLS, AUTH, SIZE=n+1, RCPTMAX and BDAT probes; after a successful AUTH, after a successful STARTTLS and after a STARTTLS whose handshake failed the capability set is checked again for the state the connection is then in. Non-trivial: every configuration; distinct by configuration."
 	ctx.Exhaustive = true
 	ctx.Assumptions = []string{"AUTH= MAIL parameter on servers not advertising AUTH is not judged", "REQUIRETLS parameter on a plaintext connection of a server that enables it is not judged"}
 	core.RunCases(ctx, func(emit func(c12Case)) {
@@ -368,7 +368,33 @@ func c12Exec(ctx *core.Ctx, c c12Case) {
 			fail("C12:auth-advertised-not-honoured", fmt.Sprintf("AUTH is advertised but AUTH VERIF was answered %s (mechanism reached: %v)", r, reached))
 		case !advertised && (r.Class() == 2 || r.Class() == 3 || reached):
 			fail("C12:auth-not-advertised-but-accepted", fmt.Sprintf("AUTH is not available but AUTH VERIF was answered %s (mechanism reached: %v)", r, reached))
+		case advertised:
+			// what the configuration makes available does not change by having authenticated
+			checkCaps()
 		}
+	}
+	// STARTTLS accepted but the handshake fails (the peer sends something that is not a TLS
+	// record): if the connection goes on, it is a plaintext connection and must advertise as one
+	if !failed && c.TLS == "available" {
+		closeConn()
+		if !open() {
+			closeConn()
+			return
+		}
+		cmd(hello + " probe.test")
+		if r := cmd("STARTTLS"); r.Code == 220 {
+			p.SendStr("NOOP\r\n")
+			if _, err := p.ReadUntilStall(); err == nil {
+				ctx.Add("failed_handshakes_followed_by_a_capability_check", 1)
+				checkCaps()
+			}
+		}
+		closeConn()
+		if !open() {
+			closeConn()
+			return
+		}
+		cmd(hello + " probe.test")
 	}
 	// STARTTLS last
 	if !failed && fresh() {
@@ -389,6 +415,8 @@ func c12Exec(ctx *core.Ctx, c c12Case) {
 					// AUTH is advertised inside TLS: it must be honoured there, whatever happened in plaintext
 					if r := cmd("AUTH VERIF b2s="); r.Code != 235 {
 						fail("C12:auth-advertised-not-honoured", fmt.Sprintf("inside TLS AUTH is advertised but AUTH VERIF was answered %s", r))
+					} else {
+						checkCaps()
 					}
 				}
 				if !failed {
